@@ -421,6 +421,19 @@ func (in *Instance) DeliverMsg(msg sdk.Msg) TxResult {
 	txBytes := []byte(fmt.Sprintf("verif-tx-%d", in.TxCount+1))
 	sum := sha256.Sum256(txBytes)
 	res := TxResult{TxHash: fmt.Sprintf("%x", sum)}
+	// what a node executes is the message decoded from the transaction bytes: round-trip it
+	// through protobuf so that nil/empty distinctions are those of a real transaction
+	if bz, err := in.Cdc.MarshalInterface(msg); err == nil {
+		var dec sdk.Msg
+		if err := in.Cdc.UnmarshalInterface(bz, &dec); err != nil {
+			res.Err = fmt.Errorf("tx decode: %w", err)
+			return res
+		}
+		msg = dec
+	} else {
+		res.Err = fmt.Errorf("tx encode: %w", err)
+		return res
+	}
 	if v, ok := msg.(validatable); ok {
 		var err error
 		if p := guard("ValidateBasic", func() { err = v.ValidateBasic() }); p != nil {
